@@ -87,6 +87,13 @@ def rule_sk_eof(cx, rep, port):
         head = sk.loop_head()
         get = _one(_get_record_nodes(sk), 'input_iterator.get_record() call', sk)
         eofs = _eof_test(sk)
+        if not eofs:
+            # end of input decided by the truthiness of the record instead of `is None`: a record without fields is falsy too
+            truthy = sk.nodes(lambda n: n.kind == 'test' and ((negated(n.ast) is not None and is_name(negated(n.ast), 'record_a')) or is_name(n.ast, 'record_a') or
+                                                              (isinstance(n.ast, ast.Compare) and len(n.ast.ops) == 1 and isinstance(n.ast.left, ast.Call) and dotted(n.ast.left.func) == 'len' and n.ast.left.args and is_name(n.ast.left.args[0], 'record_a'))))
+            if truthy:
+                rep.violated(sk.name, truthy[0].ast, 'the end of the input is decided by `{}`, the truthiness of the record, instead of `record_a is None`: a record with no fields (an empty line under the whitespace policy, an empty row of a list table) ends the query, and every record after it is lost'.format(node_text(truthy[0].ast, 40)))
+                continue
         eof = _one(eofs, 'EOF test on record_a', sk)
         dom = g.dominators()
         ok_order = g.dominates(get, eof, dom)
